@@ -401,9 +401,9 @@ def orTrueChain : List Expr → Expr
   | [] => .nil
   | v :: rest => .bin .and (.bin .or v .true) (orTrueChain rest)
 
+/-- `expressions_as_expression` (after the F32 fix: no special `e and nil` form for one expression) -/
 def expressionsAsExpression : List Expr → Expr
   | [] => .nil
-  | [e] => .bin .and e .nil
   | es => orTrueChain es
 
 /-! ### the processor -/
@@ -441,22 +441,39 @@ def reserveGlobals (M : Matcher) (st : St) : St :=
   missing.foldl (fun st g =>
     { st with counter := st.counter + 1, mappings := st.mappings ++ [(g, reservedName (st.counter + 1))] }) st
 
-/-- `process_statement` -/
-def processStatement (M : Matcher) (preserve : Bool) : Stmt → St → Stmt × St
+/-- is this statement a call (without method) that the matcher removes? -/
+def stmtMatched (M : Matcher) (st : St) : Stmt → Bool
+  | .callStmt (.call f none _ _) => M.matchesPrefix (isUsed st.scopes) f
+  | _ => false
+
+/-- is this expression a call (without method) that the matcher removes? -/
+def exprMatched (M : Matcher) (st : St) : Expr → Bool
+  | .call f none _ _ => M.matchesPrefix (isUsed st.scopes) f
+  | _ => false
+
+/-- F31 fix: a lone `local _ = …` is wrapped in `do … end` -/
+def wrapLocal : Stmt → Stmt
+  | .localAssign k ns vs => .doBlock (.mk [.localAssign k ns vs] none)
+  | other => other
+
+/-- one round of the loop of `process_statement`: the matched call statement becomes the statement
+built from its kept arguments; a lone `local _ = …` is wrapped in `do … end` (F31 fix) -/
+def processStatementOnce (M : Matcher) (preserve : Bool) : Stmt → St → Stmt × St
   | .callStmt (.call f none kind args), st =>
     if M.matchesPrefix (isUsed st.scopes) f then
       if preserve then
-        (expressionsAsStatement (preserveArgumentsSideEffects kind args),
+        (wrapLocal (expressionsAsStatement (preserveArgumentsSideEffects kind args)),
           { st with unmodelled := st.unmodelled || argsUnmodelled kind args })
       else (.doBlock (.mk [] none), st)
     else (.callStmt (.call f none kind args), st)
   | s, st => (s, st)
 
-/-- `process_expression` -/
-def processExpression (M : Matcher) (preserve : Bool) : Expr → St → Expr × St
+/-- one round of the loop of `process_expression`. The flag `zero-arg-expr` (instrumentation, F18) is
+recorded here because a later round can meet it on a node produced by an earlier one. -/
+def processExpressionOnce (M : Matcher) (preserve : Bool) : Expr → St → Expr × St
   | .call f none kind args, st =>
     if M.matchesPrefix (isUsed st.scopes) f then
-      let st1 := reserveGlobals M st
+      let st1 := (reserveGlobals M st).flagIf (M.hasResult && args.isEmpty) "zero-arg-expr"
       match M.computeResult kind args st1.mappings with
       | some result => (result, st1)
       | none =>
@@ -467,11 +484,38 @@ def processExpression (M : Matcher) (preserve : Bool) : Expr → St → Expr × 
     else (.call f none kind args, st)
   | e, st => (e, st)
 
+/-- `while let Statement::Call(call) = statement { if matches { replace } else { break } }` (F30 fix);
+every round strictly shrinks the statement, `fuel` = its size is enough -/
+def processStatementLoop (M : Matcher) (preserve : Bool) : Nat → Stmt → St → Stmt × St
+  | 0, s, st => (s, st)
+  | n + 1, s, st =>
+    if stmtMatched M st s then
+      let r := processStatementOnce M preserve s st
+      processStatementLoop M preserve n r.1 r.2
+    else (s, st)
+
+def processExpressionLoop (M : Matcher) (preserve : Bool) : Nat → Expr → St → Expr × St
+  | 0, e, st => (e, st)
+  | n + 1, e, st =>
+    if exprMatched M st e then
+      let r := processExpressionOnce M preserve e st
+      processExpressionLoop M preserve n r.1 r.2
+    else (e, st)
+
+/-- `process_statement` -/
+def processStatement (M : Matcher) (preserve : Bool) (s : Stmt) (st : St) : Stmt × St :=
+  processStatementLoop M preserve (s.size + 1) s st
+
+/-- `process_expression` -/
+def processExpression (M : Matcher) (preserve : Bool) (e : Expr) (st : St) : Expr × St :=
+  processExpressionLoop M preserve (e.size + 1) e st
+
 /-! ### instrumentation: which known defect regions does the traversal meet?
 
 The flags are the local hypotheses of the `_partial` theorems (`C17/Thm.lean`) evaluated at every
 node the REAL traversal reaches (including nodes produced by earlier rewrites). They never
-influence the tree. -/
+influence the tree. Left after the fixes of F19 F30 F31 F32: `zero-arg-expr` (F18, set in
+`processExpressionOnce`), `multi-position` (F33), `global-write` (outside the quantifier). -/
 
 /-- a matched call (no method) -/
 def isMatchedCall (M : Matcher) (sc : Scopes) : Expr → Bool
@@ -483,32 +527,6 @@ def lastPositional : List Entry → Option Expr
   | [.pos v] => some v
   | _ :: rest => lastPositional rest
 
-/-- statement hook: the rewrite left a matched call that will not be visited again (`nested-single`),
-or a bare `local _ = …` (`bare-local`) -/
-def stmtFlags (M : Matcher) (s : Stmt) (s' : Stmt) (st : St) : St :=
-  match s with
-  | .callStmt (.call f none _ _) =>
-    if M.matchesPrefix (isUsed st.scopes) f then
-      match s' with
-      | .callStmt c => st.flagIf (isMatchedCall M st.scopes c) "nested-single"
-      | .localAssign _ _ _ => st.flag "bare-local"
-      | _ => st
-    else st
-  | _ => st
-
-/-- expression hook: zero arguments with a `compute_result` (`zero-arg-expr`); the result is itself a
-matched call (`nested-single`); exactly one kept argument without `compute_result` (`single-kept-expr`) -/
-def exprFlags (M : Matcher) (preserve : Bool) (e : Expr) (e' : Expr) (st : St) : St :=
-  match e with
-  | .call f none kind args =>
-    if M.matchesPrefix (isUsed st.scopes) f then
-      if M.hasResult then
-        (st.flagIf args.isEmpty "zero-arg-expr").flagIf (isMatchedCall M st.scopes e') "nested-single"
-      else
-        st.flagIf (preserve && (preserveArgumentsSideEffects kind args).length == 1) "single-kept-expr"
-    else st
-  | _ => st
-
 /-- a matched call without `compute_result` as the last element of a list: it yields one value
 where the removed call yielded none (`multi-position`) -/
 def listFlags (M : Matcher) (last : Option Expr) (st : St) : St :=
@@ -518,7 +536,6 @@ def listFlags (M : Matcher) (last : Option Expr) (st : St) : St :=
 
 def nodeFlags (M : Matcher) (e : Expr) (st : St) : St :=
   match e with
-  | .var "_" => st.flag "underscore"
   | .call _ _ .tuple args => listFlags M args.getLast? st
   | .table entries => listFlags M (lastPositional entries) st
   | _ => st
@@ -541,12 +558,8 @@ def stmtNodeFlags (M : Matcher) (s : Stmt) (st : St) : St :=
   | _ => st
 
 def processor (M : Matcher) (preserve : Bool) : Processor St where
-  stmt := fun s st =>
-    let r := processStatement M preserve s st
-    (r.1, if preserve then stmtFlags M s r.1 r.2 else r.2)
-  expr := fun e st =>
-    let r := processExpression M preserve e st
-    (r.1, exprFlags M preserve e r.1 r.2)
+  stmt := processStatement M preserve
+  expr := processExpression M preserve
   node := fun e st => (e, nodeFlags M e st)
   last := fun l st => (l, lastFlags M l st)
   target := fun e st => (e, targetFlags M e st)
